@@ -119,7 +119,10 @@ class Match(Generic[T]):
         self._update_fields(variable, parent)
         for attr_name, attr_assigned_value in self.kwargs.items():
             attr_assignment = AttributeAssignment(
-                attr_name, self.variable, attr_assigned_value
+                attr_name,
+                self.variable,
+                attr_assigned_value,
+                self._attribute_owner_type_,
             )
             if isinstance(attr_assigned_value, Select):
                 self._update_selected_variables(attr_assignment.attr)
@@ -132,6 +135,20 @@ class Match(Generic[T]):
                     attr_assignment.infer_condition_between_attribute_and_assigned_value()
                 )
                 self.conditions.append(condition)
+
+    @property
+    def _attribute_owner_type_(self) -> Optional[Type]:
+        """
+        :return: The class whose fields the keyword arguments of this match name: the matched type when it narrows
+         the type of the variable (the type filter then guarantees that the values are instances of it), otherwise
+         the type of the variable.
+        """
+        variable_type = self.variable._type_
+        if isinstance(self.type_, type) and (
+            not isinstance(variable_type, type) or issubclass(self.type_, variable_type)
+        ):
+            return self.type_
+        return variable_type
 
     def _update_fields(
         self,
@@ -199,6 +216,10 @@ class AttributeAssignment:
     assigned_value: Union[Literal, Match]
     """
     The value to assign to the attribute, which can be a Match instance or a Literal.
+    """
+    owner_type: Optional[Type] = None
+    """
+    The class that owns the attribute; if not given, the type of the variable.
     """
     conditions: List[ConditionType] = field(init=False, default_factory=list)
     """
@@ -275,9 +296,14 @@ class AttributeAssignment:
         :return: the attribute of the variable.
         :raises NoneWrappedFieldError: If the attribute does not have a WrappedField.
         """
-        attr: Attribute = getattr(self.variable, self.attr_name)
+        if self.owner_type is None or self.owner_type is self.variable._type_:
+            attr: Attribute = getattr(self.variable, self.attr_name)
+        else:
+            attr = Attribute(self.variable, self.attr_name, self.owner_type)
         if not attr._wrapped_field_:
-            raise NoneWrappedFieldError(self.variable._type_, self.attr_name)
+            raise NoneWrappedFieldError(
+                self.owner_type or self.variable._type_, self.attr_name
+            )
         return attr
 
     @property
